@@ -30,6 +30,9 @@ pub struct Ctx {
     pub ca_key: BTreeMap<&'static str, usize>,
     /// which identity key is registered for whom in this state
     pub registered: BTreeMap<&'static str, &'static str>,
+    /// children that are suspended in this state: a properly signed request
+    /// of theirs re-activates them (and their certificates) as a side effect
+    pub suspended: Vec<&'static str>,
 }
 
 fn entitlement(child: &str) -> ResourceSet {
@@ -59,7 +62,7 @@ struct Obs {
     problems: Vec<(String, String)>,
 }
 
-pub const STATES: [&str; 4] = ["fresh", "issued", "alice-id-replaced", "parent-id-rolled"];
+pub const STATES: [&str; 5] = ["fresh", "issued", "alice-id-replaced", "parent-id-rolled", "alice-suspended"];
 
 pub fn build_state(name: &str) -> Result<(World, Ctx), String> {
     let w = World::build_ta_parent(WorldCfg::default()).map_err(|e| e.to_string())?;
@@ -78,6 +81,7 @@ pub fn build_state(name: &str) -> Result<(World, Ctx), String> {
         id,
         ca_key,
         registered: [("alice", "A"), ("bobby", "B")].into_iter().collect(),
+        suspended: Vec::new(),
     };
     for (child, key) in [("alice", "A"), ("bobby", "B")] {
         let req = AddChildRequest {
@@ -131,6 +135,14 @@ pub fn build_state(name: &str) -> Result<(World, Ctx), String> {
         }
         "parent-id-rolled" => {
             w.krill.ca_manager().ca_update_id(ca("parent"), &w.actor, &w.krill).map_err(|e| e.to_string())?;
+            w.pump()?;
+        }
+        "alice-suspended" => {
+            w.krill
+                .ca_manager()
+                .ca_child_update(&ca("parent"), ca("alice").convert(), UpdateChildRequest::suspend(), &w.actor, &w.krill)
+                .map_err(|e| e.to_string())?;
+            ctx.suspended.push("alice");
             w.pump()?;
         }
         other => return Err(format!("unknown state {other}")),
@@ -385,7 +397,10 @@ fn evaluate(w: &mut World, ctx: &Ctx, r: &Req) -> Obs {
                 }
             }
         }
-        if fp_after != fp_before {
+        // a properly signed request of a suspended child re-activates it even
+        // when the request itself is then refused on semantic grounds
+        let reactivated = may_accept && ctx.suspended.contains(&claimed.as_str());
+        if fp_after != fp_before && !reactivated {
             bad("refused-but-changed", format!("state changed by a refused request: {}", first_diff(&fp_before, &fp_after, "")));
         }
     }
@@ -481,7 +496,15 @@ fn evaluate(w: &mut World, ctx: &Ctx, r: &Req) -> Obs {
         }
     };
     if !obs.accepted {
-        if certs_after != certs_before || files_after != files_before {
+        let reactivated = may_accept && ctx.suspended.contains(&claimed.as_str());
+        let without_own = |m: &BTreeMap<String, String>| -> BTreeMap<String, String> {
+            let mut m = m.clone();
+            if reactivated {
+                m.remove(&key_hash_of(ctx, own).to_string());
+            }
+            m
+        };
+        if without_own(&certs_after) != without_own(&certs_before) || files_after != files_before {
             bad("refused-but-changed", "published content changed after a refused request".into());
         }
         return obs;
@@ -510,9 +533,17 @@ fn evaluate(w: &mut World, ctx: &Ctx, r: &Req) -> Obs {
                     bad("foreign-effect", format!("certificate {k} changed"));
                 }
             }
+            let strip = |m: &BTreeMap<String, String>| -> BTreeMap<String, String> {
+                let mut m = m.clone();
+                if ctx.suspended.contains(&own) {
+                    // re-activation re-publishes the suspended certificate
+                    m.remove(&own_key);
+                }
+                m
+            };
             match (kind, obs.reply.as_str()) {
                 ("list", "list") => {
-                    if certs_after != certs_before {
+                    if strip(&certs_after) != strip(&certs_before) {
                         bad("effect", "a list request changed certificates".into());
                     }
                 }
@@ -534,7 +565,7 @@ fn evaluate(w: &mut World, ctx: &Ctx, r: &Req) -> Obs {
                     }
                 }
                 (_, rep) if rep.starts_with("error") => {
-                    if certs_after != certs_before {
+                    if strip(&certs_after) != strip(&certs_before) {
                         bad("effect", format!("an error response ({rep}) came with a change of certificates"));
                     }
                 }
@@ -649,6 +680,7 @@ fn flip_subjects(thorough: bool) -> Vec<(&'static str, Req)> {
         ("issued", up("A", "alice", "revoke_own")),
         ("issued", Req::Pub { key: "A".into(), path: "alice".into(), kind: "list".into() }),
         ("issued", Req::Pub { key: "A".into(), path: "alice".into(), kind: "update_own".into() }),
+        ("alice-suspended", up("A", "alice", "list")),
     ];
     if thorough {
         for state in ["alice-id-replaced", "parent-id-rolled"] {
